@@ -535,9 +535,12 @@ def esc1(units, R):
     # parameters of Utils functions that end up copied verbatim
     raw = {}
     changed = True
+    ENCODERS = ('encode_string_as_pointer', 'pointer_encoded_length')      # what they write per byte is TAB9's business
     while changed:
         changed = False
         for fn in u.function_list:
+            if fn.name in ENCODERS:
+                continue
             pidx = {p['d']: i for i, p in enumerate(fn.params)}
             for c in fn.calls():
                 cn = callee_name(c)
